@@ -96,6 +96,8 @@ def _edges(desc):
         p = pt.make_placeholder("p", (m, 4), np.float64)   # m as a shape comp
         outs["shape"] = p + xf
         outs["full_shape"] = pt.zeros((m,), np.float64) + 1
+        outs["stack_sym"] = pt.stack([p, p * 2])       # derived shape (2, m, 4)
+        outs["concat_sym"] = pt.concatenate([p, p], axis=1)
     if "index" in kinds:
         outs["index"] = xf[s] + xf[s[::-1]]
     if "slice" in kinds:
